@@ -93,6 +93,7 @@ namespace sim
 struct TsanReportRec
 {
     bool stop_path;
+    bool reader_side;   // one of the stacks is the UCI reader loop
     char text[400];
 };
 static TsanReportRec g_tsan_reports[32];
@@ -111,6 +112,7 @@ extern "C" void __tsan_on_report(void* report)
     if (idx >= 32) return;
     TsanReportRec& r = g_tsan_reports[idx];
     r.stop_path = false;
+    r.reader_side = false;
     size_t pos = 0;
     auto app = [&](const char* s) {
         while (*s && pos + 1 < sizeof r.text) r.text[pos++] = *s++;
@@ -133,6 +135,7 @@ extern "C" void __tsan_on_report(void* report)
             {
                 if (k < 4) { app(" "); app(di.dli_sname); }
                 if (strstr(di.dli_sname, "6Search4stop") || strstr(di.dli_sname, "12stop_command") || strstr(di.dli_sname, "12quit_command")) r.stop_path = true;
+                if (strstr(di.dli_sname, "3Uci4loop")) r.reader_side = true;
             }
         }
     }
@@ -150,7 +153,10 @@ static void collect_tsan_reports()
     {
         TsanReportRec& r = g_tsan_reports[seen++];
         if (!W) continue;
-        if (r.stop_path) W->violation("C06", "data-race-on-stop-path", std::string("ThreadSanitizer: ") + r.text);
+        // the command handlers are usually inlined into Uci::loop: a race with the reader thread while it handles a
+        // stop / quit line is a race of the stop signalling as well
+        bool reader_handles_stop = r.reader_side && (W->last_consumed == "stop" || W->last_consumed == "quit");
+        if (r.stop_path || reader_handles_stop) W->violation("C06", "data-race-on-stop-path", std::string("ThreadSanitizer: ") + r.text);
         else
         {
             W->counters["tsan_other_races"]++;
@@ -424,6 +430,7 @@ extern "C" void verif_thread_begin(void)
     task_wait_go(t);
     t->arrived = true;
     t->state = ST_RUNNING;
+    t->pthread_id = (unsigned long)pthread_self();
     t->point_count[PT_THREAD_BEGIN & 31]++;
 }
 
@@ -512,6 +519,210 @@ extern "C" void verif_point(int id, const void* a, const void* b)
         break;
     }
 }
+
+// ------------------------------------------------ blocking primitives -----
+// pthread mutexes, condition variables, sleeps and joins used by simulated tasks are intercepted at link level (the
+// executable's definitions win over libc's): a task never blocks in the kernel while it holds the baton; it parks in
+// the scheduler instead, so lost wake-ups and lock cycles become explorable, reproducible schedules.  Not in the tsan
+// variant (ThreadSanitizer needs its own interceptors to see the engine's synchronisation).
+#if !defined(VERIF_TSAN)
+#include <dlfcn.h>
+#include <sched.h>
+extern "C"
+{
+    int __interceptor_pthread_join(pthread_t, void**) __attribute__((weak));
+}
+namespace sim
+{
+// libc's own mutex functions, resolved lazily (they are needed before main: static initialisers lock mutexes)
+static int (*real_mutex_lock)(pthread_mutex_t*) = nullptr;
+static int (*real_mutex_trylock)(pthread_mutex_t*) = nullptr;
+static int (*real_mutex_unlock)(pthread_mutex_t*) = nullptr;
+static bool g_resolving_mutex = false;
+static bool resolve_mutex_fns()
+{
+    if (real_mutex_lock) return true;
+    if (g_resolving_mutex) return false;  // dlsym itself took a lock: single-threaded start-up, nothing to protect
+    g_resolving_mutex = true;
+    auto l = (int (*)(pthread_mutex_t*))dlsym(RTLD_NEXT, "pthread_mutex_lock");
+    auto tl = (int (*)(pthread_mutex_t*))dlsym(RTLD_NEXT, "pthread_mutex_trylock");
+    auto u = (int (*)(pthread_mutex_t*))dlsym(RTLD_NEXT, "pthread_mutex_unlock");
+    real_mutex_trylock = tl;
+    real_mutex_unlock = u;
+    real_mutex_lock = l;
+    g_resolving_mutex = false;
+    return true;
+}
+static inline int __pthread_mutex_lock(pthread_mutex_t* m) { return resolve_mutex_fns() ? real_mutex_lock(m) : 0; }
+static inline int __pthread_mutex_trylock(pthread_mutex_t* m) { return resolve_mutex_fns() ? real_mutex_trylock(m) : 0; }
+static inline int __pthread_mutex_unlock(pthread_mutex_t* m) { return resolve_mutex_fns() ? real_mutex_unlock(m) : 0; }
+static int (*real_cond_signal)(pthread_cond_t*) = nullptr;
+static int (*real_cond_broadcast)(pthread_cond_t*) = nullptr;
+static int (*real_cond_wait)(pthread_cond_t*, pthread_mutex_t*) = nullptr;
+static int (*real_cond_timedwait)(pthread_cond_t*, pthread_mutex_t*, const struct timespec*) = nullptr;
+static int (*real_cond_clockwait)(pthread_cond_t*, pthread_mutex_t*, clockid_t, const struct timespec*) = nullptr;
+static int (*real_join)(pthread_t, void**) = nullptr;
+static int (*real_nanosleep)(const struct timespec*, struct timespec*) = nullptr;
+static int (*real_clock_nanosleep)(clockid_t, int, const struct timespec*, struct timespec*) = nullptr;
+void resolve_real_sync()
+{
+    real_cond_signal = (int (*)(pthread_cond_t*))dlsym(RTLD_NEXT, "pthread_cond_signal");
+    real_cond_broadcast = (int (*)(pthread_cond_t*))dlsym(RTLD_NEXT, "pthread_cond_broadcast");
+    real_cond_wait = (int (*)(pthread_cond_t*, pthread_mutex_t*))dlsym(RTLD_NEXT, "pthread_cond_wait");
+    real_cond_timedwait = (int (*)(pthread_cond_t*, pthread_mutex_t*, const struct timespec*))dlsym(RTLD_NEXT, "pthread_cond_timedwait");
+    real_cond_clockwait = (int (*)(pthread_cond_t*, pthread_mutex_t*, clockid_t, const struct timespec*))dlsym(RTLD_NEXT, "pthread_cond_clockwait");
+    real_join = __interceptor_pthread_join ? __interceptor_pthread_join : (int (*)(pthread_t, void**))dlsym(RTLD_NEXT, "pthread_join");
+    real_nanosleep = (int (*)(const struct timespec*, struct timespec*))dlsym(RTLD_NEXT, "nanosleep");
+    real_clock_nanosleep = (int (*)(clockid_t, int, const struct timespec*, struct timespec*))dlsym(RTLD_NEXT, "clock_nanosleep");
+}
+static Task* sim_task() { return W ? tl_task : nullptr; }
+static int sim_mutex_lock(Task* t, pthread_mutex_t* m)
+{
+    for (;;)
+    {
+        int r = __pthread_mutex_trylock(m);
+        if (r != EBUSY) return r;
+        t->wait_obj = m;
+        t->mutex_epoch_seen = W->mutex_epoch;
+        W->counters["sync_mutex_blocked"]++;
+        task_yield(t, ST_WAIT_MUTEX, PT_MUTEX_BLOCKED);
+    }
+}
+static int64_t abstime_to_sim_ns(clockid_t clk, const struct timespec* ts)
+{
+    int64_t abs = int64_t(ts->tv_sec) * 1000000000LL + ts->tv_nsec;
+    if (clk == CLOCK_REALTIME) return abs - 1600000000000000000LL - (W ? W->cfg.epoch_offset_us * 1000 : 0);
+    return abs - 1000000000LL;
+}
+static int sim_cond_wait(Task* t, pthread_cond_t* c, pthread_mutex_t* m, int64_t deadline_ns)
+{
+    t->wait_obj = c;
+    t->cond_signalled = false;
+    t->wake_ns = deadline_ns;
+    __pthread_mutex_unlock(m);
+    W->mutex_epoch++;
+    W->counters["sync_cond_waits"]++;
+    do task_yield(t, ST_WAIT_COND, PT_COND_WAIT);
+    while (!t->cond_signalled && !(t->wake_ns >= 0 && W->clock_ns >= t->wake_ns));
+    bool timed_out = !t->cond_signalled;
+    t->wait_obj = nullptr;
+    t->wake_ns = -1;
+    sim_mutex_lock(t, m);
+    return timed_out ? ETIMEDOUT : 0;
+}
+static void sim_cond_wake(pthread_cond_t* c, bool all)
+{
+    for (int i = 0; i < W->spawned; ++i)
+    {
+        Task& tk = W->tasks[i];
+        if (tk.state == ST_WAIT_COND && tk.wait_obj == c && !tk.cond_signalled)
+        {
+            tk.cond_signalled = true;
+            if (!all) return;
+        }
+    }
+}
+static void sim_sleep(Task* t, int64_t ns)
+{
+    t->wake_ns = W->clock_ns + (ns > 0 ? ns : 0);
+    W->counters["sync_sleeps"]++;
+    do task_yield(t, ST_SLEEP, PT_SLEEP);
+    while (W->clock_ns < t->wake_ns);
+    t->wake_ns = -1;
+}
+}  // namespace sim
+
+extern "C"
+{
+    int pthread_mutex_lock(pthread_mutex_t* m)
+    {
+        sim::Task* t = sim::sim_task();
+        if (!t) return sim::__pthread_mutex_lock(m);
+        return sim::sim_mutex_lock(t, m);
+    }
+    int pthread_mutex_unlock(pthread_mutex_t* m)
+    {
+        int r = sim::__pthread_mutex_unlock(m);
+        if (sim::sim_task()) sim::W->mutex_epoch++;
+        return r;
+    }
+    int pthread_cond_wait(pthread_cond_t* c, pthread_mutex_t* m)
+    {
+        sim::Task* t = sim::sim_task();
+        if (!t) return sim::real_cond_wait(c, m);
+        return sim::sim_cond_wait(t, c, m, -1);
+    }
+    int pthread_cond_timedwait(pthread_cond_t* c, pthread_mutex_t* m, const struct timespec* ts)
+    {
+        sim::Task* t = sim::sim_task();
+        if (!t) return sim::real_cond_timedwait(c, m, ts);
+        return sim::sim_cond_wait(t, c, m, sim::abstime_to_sim_ns(CLOCK_REALTIME, ts));
+    }
+    int pthread_cond_clockwait(pthread_cond_t* c, pthread_mutex_t* m, clockid_t clk, const struct timespec* ts)
+    {
+        sim::Task* t = sim::sim_task();
+        if (!t) return sim::real_cond_clockwait(c, m, clk, ts);
+        return sim::sim_cond_wait(t, c, m, sim::abstime_to_sim_ns(clk, ts));
+    }
+    int pthread_cond_signal(pthread_cond_t* c)
+    {
+        if (sim::sim_task()) sim::sim_cond_wake(c, false);
+        return sim::real_cond_signal ? sim::real_cond_signal(c) : 0;
+    }
+    int pthread_cond_broadcast(pthread_cond_t* c)
+    {
+        if (sim::sim_task()) sim::sim_cond_wake(c, true);
+        return sim::real_cond_broadcast ? sim::real_cond_broadcast(c) : 0;
+    }
+    int pthread_join(pthread_t th, void** ret)
+    {
+        sim::Task* t = sim::sim_task();
+        if (t)
+        {
+            int target = -1;
+            for (int i = 0; i < sim::W->spawned; ++i)
+                if (sim::W->tasks[i].pthread_id == (unsigned long)th && sim::W->tasks[i].arrived) target = i;
+            // a thread that has not arrived yet cannot be identified by its id: wait for any not-yet-arrived task too
+            if (target < 0)
+                for (int i = 0; i < sim::W->spawned; ++i)
+                    if (!sim::W->tasks[i].arrived && sim::W->tasks[i].state != sim::ST_DONE) target = i;
+            if (target >= 0 && sim::W->tasks[target].state != sim::ST_DONE)
+            {
+                t->join_target = target;
+                sim::W->counters["sync_joins"]++;
+                do sim::task_yield(t, sim::ST_WAIT_JOIN, sim::PT_JOIN);
+                while (sim::W->tasks[target].state != sim::ST_DONE);
+                t->join_target = -1;
+            }
+        }
+        return sim::real_join(th, ret);
+    }
+    int nanosleep(const struct timespec* req, struct timespec* rem)
+    {
+        sim::Task* t = sim::sim_task();
+        if (!t) return sim::real_nanosleep(req, rem);
+        sim::sim_sleep(t, int64_t(req->tv_sec) * 1000000000LL + req->tv_nsec);
+        return 0;
+    }
+    int clock_nanosleep(clockid_t clk, int flags, const struct timespec* req, struct timespec* rem)
+    {
+        sim::Task* t = sim::sim_task();
+        if (!t) return sim::real_clock_nanosleep(clk, flags, req, rem);
+        int64_t ns = int64_t(req->tv_sec) * 1000000000LL + req->tv_nsec;
+        if (flags & TIMER_ABSTIME) ns = sim::abstime_to_sim_ns(clk, req) - sim::W->clock_ns;
+        sim::sim_sleep(t, ns);
+        return 0;
+    }
+    int sched_yield(void)
+    {
+        sim::Task* t = sim::sim_task();
+        if (t) { sim::W->counters["sync_yields"]++; sim::task_yield(t, sim::ST_READY, sim::PT_YIELD); }
+        return 0;
+    }
+}
+#else
+namespace sim { void resolve_real_sync() {} }
+#endif
 
 namespace sim
 {
@@ -752,6 +963,7 @@ void World::on_line_consumed(Task* t, const std::string& line)
         trace_event(0xC0115, fnv1a(FNV_INIT, line.data(), hl), uint64_t(s));
     }
     (void)t;
+    last_consumed = line;
     if (starts_with(line, "go"))
     {
         for (auto& g : gos)
@@ -1154,9 +1366,21 @@ void World::check_c08_bestmove(GoRec& g)
             return;
         }
         int64_t n = y > 0 ? y : -y;
-        if (n > 4) { counters["c08_undecided_long"]++; return; }
-        ref::MateSolver ms(n <= 3 ? 30000000 : 3000000);
-        int res = y > 0 ? ms.attacker(r, int(n)) : ms.mated_within(r, int(n));
+        if (n > 7) { counters["c08_undecided_long"]++; return; }
+        int res;
+        if (n <= 3)
+        {
+            ref::MateSolver ms(30000000);
+            res = y > 0 ? ms.attacker(r, int(n)) : ms.mated_within(r, int(n));
+        }
+        else
+        {
+            // longer announcements: ordered, cached search with a node budget; a healthy engine's mates are found at a
+            // shallow iteration, only a false announcement makes this expensive
+            ref::MateSearch ms(n <= 5 ? 6000000 : 3000000);
+            res = y > 0 ? ms.solve(r, int(n)) : ms.def(r, int(n));
+            counters["c08_long_announcements_searched"]++;
+        }
         if (res == -1) { counters["c08_undecided_budget"]++; return; }
         counters["c08_announcements_decided"]++;
         if (res == 0)
@@ -1258,6 +1482,7 @@ static void* uci_thread_main(void*)
     task_wait_go(t);
     t->arrived = true;
     t->state = ST_RUNNING;
+    t->pthread_id = (unsigned long)pthread_self();
     W->uci->loop();
     tl_task = nullptr;
     t->state = ST_DONE;
@@ -1274,6 +1499,10 @@ bool World::eligible(const Task& t) const
     case ST_DONE: return false;
     case ST_WAIT_INPUT: return !inq.empty() || in_eof;
     case ST_WAIT_LOCK: return io_owner < 0;
+    case ST_WAIT_MUTEX: return t.mutex_epoch_seen != mutex_epoch;
+    case ST_WAIT_COND: return t.cond_signalled || (t.wake_ns >= 0 && clock_ns >= t.wake_ns);
+    case ST_SLEEP: return clock_ns >= t.wake_ns;
+    case ST_WAIT_JOIN: return t.join_target < 0 || tasks[t.join_target].state == ST_DONE;
     default: break;
     }
     if (t.kind == TK_SEARCH && hold_search) return false;
@@ -1493,6 +1722,7 @@ void process_init()
 {
     if (g_process_inited) return;
     g_process_inited = true;
+    resolve_real_sync();
     engine::move_bitboards::init();
     engine::bitbase::init();
     engine::endgame::init();
@@ -1591,20 +1821,45 @@ RunResult run_world(const Script& script)
             if (world.eligible(world.tasks[i])) el.push_back(&world.tasks[i]);
         if (el.empty())
         {
-            if (world.gui_time_event >= 0 && world.clock_ns < world.gui_time_event)
             {
-                // every engine task is blocked: jump to the next GUI event
-                world.clock_ns = world.gui_time_event;
-                world.counters["clock_jumps"]++;
-                continue;
+                // every engine task is blocked: jump to the next timed event (GUI, timed wait, sleep)
+                int64_t next = world.gui_time_event >= 0 && world.clock_ns < world.gui_time_event ? world.gui_time_event : -1;
+                for (int i = 0; i < world.spawned; ++i)
+                {
+                    const Task& tk = world.tasks[i];
+                    if ((tk.state == ST_SLEEP || tk.state == ST_WAIT_COND) && tk.wake_ns > world.clock_ns && (next < 0 || tk.wake_ns < next)) next = tk.wake_ns;
+                }
+                if (next >= 0)
+                {
+                    world.clock_ns = next;
+                    world.counters["clock_jumps"]++;
+                    continue;
+                }
             }
             if (world.hold_search) { world.hold_search = false; continue; }
             // every live task waits for the output lock and its owner is one of the waiters (or gone):
             // the engine has dead-locked itself.  The threads cannot be unwound: report and abandon the process.
             {
-                bool lock_waiters = false;
+                bool lock_waiters = false, sync_waiters = false;
+                std::string who;
                 for (int i = 0; i < world.spawned; ++i)
-                    if (world.tasks[i].state == ST_WAIT_LOCK) lock_waiters = true;
+                {
+                    int st = world.tasks[i].state;
+                    if (st == ST_WAIT_LOCK) lock_waiters = true;
+                    if (st == ST_WAIT_MUTEX || st == ST_WAIT_COND || st == ST_WAIT_JOIN)
+                    {
+                        sync_waiters = true;
+                        who += " task " + std::to_string(i) + (st == ST_WAIT_MUTEX ? " waits for a mutex;" : st == ST_WAIT_COND ? " waits on a condition variable nobody will signal;" : " joins a thread that cannot finish;");
+                    }
+                }
+                if (sync_waiters && !(lock_waiters && world.io_owner >= 0))
+                {
+                    world.violation("C06", "engine-deadlock", "no thread can run:" + who);
+                    if (world.cur_go >= 0 && world.gos[world.cur_go].bestmoves == 0 && world.gos[world.cur_go].consumed)
+                        world.violation("C05", "no-bestmove", "'" + world.gos[world.cur_go].line + "' never answered:" + who);
+                    engine_deadlock = true;
+                    break;
+                }
                 if (lock_waiters && world.io_owner >= 0)
                 {
                     Task& ow = world.tasks[world.io_owner];
@@ -1616,6 +1871,14 @@ RunResult run_world(const Script& script)
                     engine_deadlock = true;
                     break;
                 }
+            }
+            if (!script_done && script.ops[world.pc].kind == OP_AWAIT_READY)
+            {
+                // the readyok never came (e.g. it was swallowed by a torn line) and nothing can run any more
+                for (auto& r : world.readys)
+                    if (!r.answered) r.answered = true;
+                world.violation("C06", "isready-unanswered", "isready consumed, nothing can run any more, no readyok line");
+                continue;
             }
             if (!script_done)
             {
